@@ -359,6 +359,25 @@ pub fn gen(out: &mut dyn std::io::Write, thorough: bool, seed: u64) {
                 _ => gen_text_tags(&mut r, &m, &alpha, 10),
             });
         }
+        // neighbouring lines that are equal, or equal only after normalisation (width variants of one another): the tool
+        // reuses its sentence objects from line to line, and each line must still come out with its OWN characters
+        if i % 2 == 0 {
+            let base: String = match r.below(3) {
+                0 => "Vap0は最高A1".into(),
+                1 => gen_text_tags(&mut r, &m, &alpha, 8) + "a1",
+                _ => (0..r.range(1, 5)).map(|_| *r.pick(&['a', 'Z', '7', '!', 'あ', '漢'])).collect(),
+            };
+            let wide: String = base.chars().map(|c| if ('!'..='~').contains(&c) { char::from_u32(c as u32 - 0x21 + 0xFF01).unwrap() } else { c }).collect();
+            let at = r.below(lines.len() + 1);
+            let block: Vec<String> = match r.below(3) {
+                0 => vec![base.clone(), wide.clone()],
+                1 => vec![wide.clone(), base.clone(), base.clone(), wide.clone()],
+                _ => vec![base.clone(), base.clone(), wide.clone(), base.clone()],
+            };
+            for (k, l) in block.into_iter().enumerate() {
+                lines.insert(at + k, l);
+            }
+        }
         let mut stdin = lines.join(if r.chance(1, 5) { "\r\n" } else { "\n" });
         if r.chance(4, 5) {
             stdin.push('\n');
